@@ -106,6 +106,24 @@ func checkC09(c *Ctx) {
 		}
 		items = append(items, item{parts, r.Pick([]string{"", "ascii", "braille", "custom"}), []string{"inline", "textstmt", "poryswitch", "format", "pair"}[r.Intn(5)]})
 	}
+	// very long lines (beyond 255 / 256 / 1024 bytes), with codes and multi-byte letters near the boundaries
+	for _, n := range []int{250, 254, 255, 256, 300, 1100} {
+		line := strings.Repeat("ab{PLAYER}é\\p", n/14+1)
+		line = line[:n-n%14] + strings.Repeat("z", n%14)
+		for _, org := range []string{"inline", "textstmt"} {
+			items = append(items, item{[]string{line}, []string{"", "ascii"}[n%2], org})
+		}
+	}
+	// texts of many parts (two-digit line counts)
+	for _, n := range []int{10, 11, 24} {
+		var parts []string
+		for k := 0; k < n; k++ {
+			parts = append(parts, fmt.Sprintf("line %d\\n", k))
+		}
+		for _, org := range []string{"inline", "textstmt", "poryswitch", "pair"} {
+			items = append(items, item{parts, []string{"", "ascii", "braille", "custom"}[n%4], org})
+		}
+	}
 	var recs []map[string]interface{}
 	srcOf := map[string]string{}
 	outOf := map[string]string{}
@@ -283,7 +301,33 @@ func checkC14(c *Ctx) {
 	var recs []map[string]interface{}
 	srcOf := map[string]string{}
 	outOf := map[string]string{}
-	for i, ln := range fam["lists.ndjson"] {
+	// long lists (two- and three-digit counts of emitted lines)
+	lists := append([]string{}, fam["lists.ndjson"]...)
+	for _, n := range []int{10, 12, 40, 130} {
+		var sb strings.Builder
+		sb.WriteString("[")
+		for k := 0; k < n; k++ {
+			if k > 0 {
+				sb.WriteString(",")
+			}
+			mul := ""
+			if k%5 == 2 {
+				mul = fmt.Sprint(2 + k%7)
+			}
+			name := []string{"a", "b"}[k%2]
+			if n == 40 && k == 33 {
+				name = "T" // an explicit terminator late in a long list
+			}
+			fmt.Fprintf(&sb, `{"name":%q,"mul":%q}`, name, mul)
+		}
+		sb.WriteString("]")
+		lists = append(lists, sb.String())
+	}
+	for _, m := range []int{31, 32, 33, 63, 64, 65, 100, 127, 128, 129, 255, 256, 257, 300, 512, 1000, 4096, 9999} {
+		lists = append(lists, fmt.Sprintf(`[{"name":"b","mul":""},{"name":"a","mul":"%d"},{"name":"b","mul":"2"}]`, m),
+			fmt.Sprintf(`[{"name":"a","mul":"%d"}]`, m))
+	}
+	for i, ln := range lists {
 		var lf listFam
 		if json.Unmarshal([]byte(ln), &lf) != nil {
 			c.Fatal("bad GenList line")
